@@ -6,6 +6,15 @@ pub proof fn thm_iso_fixed_width(dt: DateTime)
     axiom_pad_width(dt.year as int, 4); axiom_pad_width(dt.month as int, 2); axiom_pad_width(dt.day as int, 2);
     axiom_pad_width(dt.hour as int, 2); axiom_pad_width(dt.min as int, 2); axiom_pad_width(dt.sec as int, 2);
 }
+// the timestamp part of a log file name is fixed-width through year 9999: `.YYYYMMDDTHHMMSSZ-` is 18 characters, so names
+// of one prefix sort by time up to the attempt number
+pub proof fn thm_log_name_fixed_width(dt: DateTime, n: u64)
+    requires valid(dt), dt.year <= 9999
+    ensures c16(log_suffix(dt, n).len() == 18 + dec_int(n as int).len()), c16(log_suffix(dt, n)[0] == '.' && log_suffix(dt, n)[9] == 'T' && log_suffix(dt, n)[16] == 'Z' && log_suffix(dt, n)[17] == '-')
+{
+    axiom_pad_width(dt.year as int, 4); axiom_pad_width(dt.month as int, 2); axiom_pad_width(dt.day as int, 2);
+    axiom_pad_width(dt.hour as int, 2); axiom_pad_width(dt.min as int, 2); axiom_pad_width(dt.sec as int, 2);
+}
 // vacuity canary -- must FAIL
 fn canary_timefmt(t: &SystemTime)
 {
